@@ -28,12 +28,15 @@ TRUSTED = [
 ASSUMPTIONS = [
     'single inheritance (chains, trees): with multiple inheritance a class-level assignment on one base shadows the Parameter another base contributes (plain Python attribute shadowing)',
     'declared Parameters are plain param.Parameter(default=<object>, constant=, readonly=, allow_refs=) with all flags explicit; values are str objects identified by creation index '
-    '(pairs of equal but non-identical strings in the pool) and None (one pool index), so no assignment fails validation',
+    '(pairs of equal but non-identical strings in the pool), None (one pool index) and one int object that only `name` (a String) rejects with ValueError — validation runs before the guard',
     'asynchronous references: only `async def f(): return v` assigned with no event loop running (resolved synchronously inside the assignment) to allow_refs=True parameters; '
     'a running loop, async generators and Parameter/rx references are outside the model (C08/C10)',
     'the namespace cache coincides with attribute lookup (C13; no add_parameter here); watchers, references, per_instance=False and '
     'no_instance_params classes, Parameter-valued class assignment and edits of `readonly` are outside the model',
     'blocks are observed as one step (the state inside a body is not observed)',
+    'as_uninitialized on a constructed object is exercised through obj.param._set_name(v) / obj.param._generate_name() (what the per-instance deep copy of a '
+    'Parameterized default of an instantiate=True parameter and ParameterizedFunction.__new__ do); a non-string value makes the wrapped call raise ValueError and the object must stay locked',
+    'failingEntry: a raising watcher of the `constant` attribute of one per-instance Parameter at the entry of an otherwise empty edit_constant block; other watchers are outside the model',
 ]
 RULE = ('directed prefix (the design-round scenarios, the repaired edit_constant defect, nested / failing blocks, copies created early/late/inside, '
         'equal-but-not-identical objects, class-level sets on declaring class and subclass, name) + all histories of length <=2 (<=3 in thorough, '
@@ -50,12 +53,14 @@ COVERAGE_TARGETS = [
     'block:ok:depth1', 'block:ok:depth2', 'block:RuntimeError:depth1', 'block:RuntimeError:depth2', 'block:TypeError:depth1', 'block:ok:depth3',
     'body:local', 'body:foreign-instance', 'body:class-set', 'body:copy-created-inside', 'assign:equal-not-identical', 'assign:identical',
     'shape:chain2', 'shape:chain3', 'shape:fork', 'shape:tree', 'default:None-constant',
-    'instSetAsync:TypeError:constant', 'instSetAsync:ok:constant', 'instSetAsync:ok:plain', 'instSetAsync:skip:constant',
+    'setName:ok', 'setName:ValueError:invalid', 'genName:ok', 'failingEntry:RuntimeError:constant', 'failingEntry:ok:plain',
+    'instSet:ValueError:constant:makes-copy', 'instSetAsync:TypeError:constant', 'instSetAsync:ok:constant', 'instSetAsync:ok:plain', 'instSetAsync:skip:constant',
 ]
 
 NAMES = ['c', 'r', 'v', 'a', 'b', 'name']
 NPOOL = 10
 NONE = NPOOL - 1     # the pool object with this index is None itself
+BAD = NPOOL - 2      # the pool object with this index is an int: the String parameter `name` rejects it
 SHAPES = {'chain2': [[], [0]], 'chain3': [[], [0], [1]], 'fork': [[], [0], [0]], 'tree': [[], [0], [0], [1]]}
 
 
@@ -77,7 +82,7 @@ STDN = [['c', True, False, NONE, False], ['r', False, True, 2, False], ['v', Fal
 
 def _mk(shape, decls, steps):
     bases = SHAPES[shape]
-    return {'shape': shape, 'names': NAMES, 'npool': NPOOL,
+    return {'shape': shape, 'names': NAMES, 'npool': NPOOL, 'bad': [BAD],
             'classes': [{'bases': bases[k], 'mro': _MRO[shape][k], 'decl': decls[k]} for k in range(len(bases))],
             'steps': steps}
 
@@ -94,6 +99,8 @@ def run_impl(case):
     # value objects: pool[2j] == pool[2j+1] but they are different objects
     okeep = [''.join(['v', str(k // 2)]) for k in range(case['npool'])]
     okeep[case['npool'] - 1] = None          # the last pool object is None (a value, not "absent")
+    for k in case.get('bad', []):
+        okeep[k] = int('31337') + k           # not a string: rejected by `name` (a String), accepted by the others
     ABSENT = object()
     oreg = {id(o): k for k, o in enumerate(okeep)}
     if len(oreg) != len(okeep):
@@ -214,6 +221,23 @@ def run_impl(case):
                     classes[op['c']].param[op['n']].constant = op['b']
                 elif o == 'getParam':
                     inst(op['i']).param[op['n']]
+                elif o == 'setName':
+                    inst(op['i']).param._set_name(okeep[op['v']])      # as_uninitialized on a constructed object
+                elif o == 'genName':
+                    x = inst(op['i'])
+                    x.param._generate_name()
+                    oid(x.name)
+                elif o == 'failingEntry':
+                    x = inst(op['i'])
+
+                    def boom(event):
+                        raise RuntimeError('watcher of the constant flag')
+                    w = x.param.watch(boom, op['n'], what='constant')     # ValueError for an unknown name
+                    try:
+                        with edit_constant(x):
+                            pass
+                    finally:
+                        x.param.unwatch(w)
                 elif o == 'raise':
                     raise RuntimeError('body')
                 elif o == 'block':
@@ -287,6 +311,18 @@ def A(i, n, v):
     return {'op': 'instSetAsync', 'i': i, 'n': n, 'v': v}
 
 
+def SN(i, v):
+    return {'op': 'setName', 'i': i, 'v': v}
+
+
+def GN(i):
+    return {'op': 'genName', 'i': i}
+
+
+def FE(i, n):
+    return {'op': 'failingEntry', 'i': i, 'n': n}
+
+
 def SS(i, n):
     return {'op': 'instSetSame', 'i': i, 'n': n}
 
@@ -330,13 +366,26 @@ def _directed():
     out.append(('chain2', D2, [N(1), A(0, 'a', 3), A(0, 'b', 3), A(0, 'a', 6), A(0, 'c', 1), A(0, 'q', 1), U(0, ('a', 3)),
                                B(0, A(0, 'a', 5)), A(0, 'a', 5), A(0, 'a', 4), G(0, 'a'), N(1), A(1, 'a', 2), A(7, 'a', 2),
                                F(1, 'b', True), A(1, 'b', 2), A(1, 'b', 7)]))
+    # the library's own renaming of a constructed object (as_uninitialized) leaves it locked
+    out.append(('chain2', D2, [N(1), GN(0), S(0, 'c', 6), S(0, 'name', 6), SN(0, 5), S(0, 'c', 6), S(0, 'name', 6), SS(0, 'name'),
+                               G(0, 'name'), SN(0, 4), S(0, 'name', 4), U(0, ('c', 6)), B(0, GN(0), S(0, 'c', 7)), S(0, 'c', 8),
+                               N(1), GN(1), A(1, 'a', 3), GN(7), SN(7, 1)]))
+    # validation comes before the guard; a rejected renaming leaves the object locked (0d30e59)
+    out.append(('chain2', D2, [N(1), SN(0, BAD), S(0, 'c', 6), S(0, 'name', 6), S(0, 'name', BAD), S(0, 'v', BAD), S(0, 'c', BAD),
+                               U(0, ('v', 1), ('name', BAD), ('c', 6)), CS(1, 'name', BAD), CS(1, 'c', BAD), N(1, ('name', BAD)),
+                               N(1, ('name', BAD), ('r', 1)), N(1, ('r', 1), ('name', BAD)), B(0, S(0, 'name', BAD), S(0, 'c', 7)),
+                               B(0, SN(0, BAD)), S(0, 'c', 6), GN(0), SN(0, BAD), S(0, 'name', 5)]))
+    # edit_constant whose entry is interrupted by a raising watcher of the flag restores what it had cleared (e2d814e)
+    out.append(('chain2', D2, [N(1), N(1), FE(0, 'c'), S(0, 'c', 6), S(1, 'name', 6), S(1, 'c', 6), FE(0, 'v'), FE(0, 'a'),
+                               FE(0, 'q'), FE(1, 'name'), S(1, 'name', 6), B(0, FE(0, 'c'), S(0, 'c', 7)), S(0, 'c', 8), FE(7, 'c'),
+                               F(1, 'c', False), FE(1, 'c'), S(1, 'c', 5)]))
     out.append(('fork', [STD, [], []], [N(1), N(2), F(0, 'v', True), CS(0, 'v', 6), S(0, 'v', 6), S(0, 'v', 7), S(1, 'v', 7)]))
     return [_mk(s, d, o) for s, d, o in out]
 
 
 def _alphabet():
     """top-level statements after the prefix [K1(), K1(c=...)] on chain2"""
-    a = [A(0, 'a', 3), A(0, 'b', 3), B(0, A(0, 'a', 3)), S(0, 'c', 6), S(0, 'c', 0), S(0, 'c', 1), S(0, 'r', 6), S(0, 'v', 6), S(1, 'c', 6), SS(0, 'c'), SS(0, 'r'),
+    a = [GN(0), SN(0, 5), SN(0, BAD), FE(0, 'c'), FE(0, 'a'), A(0, 'a', 3), A(0, 'b', 3), B(0, A(0, 'a', 3)), S(0, 'c', 6), S(0, 'c', 0), S(0, 'c', 1), S(0, 'r', 6), S(0, 'v', 6), S(1, 'c', 6), SS(0, 'c'), SS(0, 'r'),
          U(0, ('c', 6)), U(0, ('v', 6), ('c', 7)), CS(0, 'c', 6), CS(1, 'c', 7), CS(1, 'r', 6), CS(1, 'v', 6),
          G(0, 'c'), G(1, 'c'), F(0, 'c', False), F(0, 'v', True), {'op': 'clsFlag', 'c': 1, 'n': 'c', 'b': False},
          N(1), N(1, ('r', 6)),
@@ -350,8 +399,12 @@ def _local_op(rng, i, depth):
     r = rng.random()
     n = rng.choice(NAMES)
     v = rng.randrange(NPOOL)
-    if r < 0.36:
+    if r < 0.33:
         return S(i, n, v)
+    if r < 0.34:
+        return FE(i, rng.choice(NAMES))
+    if r < 0.36:
+        return GN(i) if rng.random() < 0.4 else SN(i, BAD if rng.random() < 0.4 else v)
     if r < 0.4:
         return A(i, rng.choice(['a', 'b']), v)
     if r < 0.48:
@@ -393,8 +446,12 @@ def _any_op(rng, ctx, depth=0, in_body=False):
             kw.append(['q', 1])
         ctx['ninst'] += 1
         return {'op': 'newInst', 'c': c, 'kw': kw}
-    if r < 0.33:
+    if r < 0.30:
         return S(i, n, v)
+    if r < 0.31:
+        return FE(i, rng.choice(NAMES))
+    if r < 0.33:
+        return GN(i) if rng.random() < 0.4 else SN(i, BAD if rng.random() < 0.4 else v)
     if r < 0.36:
         return A(i, rng.choice(['a', 'a', 'b', 'c']), v)
     if r < 0.42:
@@ -465,7 +522,7 @@ def _walk(ops, depth=0, owner=None, owners=()):
 
 def _touches(op):
     """instance index an elementary statement works on"""
-    return op.get('i') if op['op'] in ('instSet', 'instSetAsync', 'instSetSame', 'update', 'getParam', 'flag', 'block') else None
+    return op.get('i') if op['op'] in ('instSet', 'instSetAsync', 'instSetSame', 'update', 'getParam', 'flag', 'block', 'setName', 'genName', 'failingEntry') else None
 
 
 def tags(case, impl):
@@ -489,7 +546,7 @@ def tags(case, impl):
                 t.append('body:copy-created-inside')
             if op['op'] == 'instSet' and op['i'] < len(prev['inst']) and op['n'] in case['names']:
                 h = prev['inst'][op['i']]['rows'][case['names'].index(op['n'])][0]
-                if h is not None and op['v'] != h and op['v'] // 2 == h // 2 and max(h, op['v']) < case['npool'] - 1:
+                if h is not None and op['v'] != h and op['v'] // 2 == h // 2 and max(h, op['v']) < case['npool'] - 2:
                     t.append('assign:equal-not-identical')
                 if h == op['v']:
                     t.append('assign:identical')
